@@ -20,8 +20,8 @@ use crate::*;
 use revm::interpreter::{
     opcode::{make_instruction_table, InstructionTable},
     AccountLoad, CallOutcome, CallScheme, CallValue, Contract, CreateOutcome, CreateScheme, Eip7702CodeLoad, Gas, Host,
-    InstructionResult, Interpreter, InterpreterAction, InterpreterResult, SStoreResult, SelfDestructResult, SharedMemory,
-    StateLoad,
+    EOFCreateKind, InstructionResult, Interpreter, InterpreterAction, InterpreterResult, SStoreResult,
+    SelfDestructResult, SharedMemory, StateLoad,
 };
 use revm::primitives::{
     eof::{EofBody, TypesSection},
@@ -510,6 +510,8 @@ pub struct EofParams {
     pub types: Vec<(u8, u8, u16)>,
     pub data: Vec<u8>,
     pub data_size: u16,
+    pub containers: Vec<Vec<u8>>,
+    pub init: bool,
 }
 
 #[derive(Clone, Debug)]
@@ -575,8 +577,9 @@ impl Params {
             Some(e) => {
                 let secs: Vec<String> = e.sections.iter().map(|c| hxb(c)).collect();
                 let types: Vec<String> = e.types.iter().map(|(i, o, m)| format!("{i}.{o}.{m}")).collect();
+                let conts: Vec<String> = e.containers.iter().map(|c| hxb(c)).collect();
                 format!(
-                    "begin eof {} {} {} {} {} {} {} {} {} {} {} {}",
+                    "begin eof {} {} {} {} {} {} {} {} {} {} {} {} {} {}",
                     self.spec,
                     self.gas,
                     b01(self.is_static),
@@ -584,6 +587,8 @@ impl Params {
                     if types.is_empty() { "-".to_string() } else { types.join("+") },
                     hxb(&e.data),
                     e.data_size,
+                    if conts.is_empty() { "-".to_string() } else { conts.join("+") },
+                    b01(e.init),
                     hxb(&self.input),
                     hx(self.target),
                     hx(self.caller),
@@ -594,7 +599,7 @@ impl Params {
         }
     }
     fn parse_eof(t: &[&str]) -> Option<Params> {
-        if t.len() != 12 {
+        if t.len() != 14 {
             return None;
         }
         let sections: Vec<Vec<u8>> =
@@ -624,9 +629,15 @@ impl Params {
         if data_size > 65535 || data.len() > 0xffff {
             return None;
         }
-        let legacy: Vec<&str> = vec![t[0], t[1], t[2], "-", t[7], t[8], t[9], t[10], t[11]];
+        let containers: Vec<Vec<u8>> =
+            if t[7] == "-" { vec![] } else { t[7].split('+').map(parse_bytes).collect::<Option<Vec<_>>>()? };
+        if containers.len() > 256 || containers.iter().any(|c| c.is_empty() || c.len() > 0xffff) {
+            return None;
+        }
+        let init = parse_bool(t[8])?;
+        let legacy: Vec<&str> = vec![t[0], t[1], t[2], "-", t[9], t[10], t[11], t[12], t[13]];
         let mut p = Params::parse(&legacy)?;
-        p.eof = Some(EofParams { sections, types, data, data_size: data_size as u16 });
+        p.eof = Some(EofParams { sections, types, data, data_size: data_size as u16, containers, init });
         Some(p)
     }
     fn bytecode(&self) -> Bytecode {
@@ -640,7 +651,7 @@ impl Params {
                         .map(|(i, o, m)| TypesSection { inputs: *i, outputs: *o, max_stack_size: *m })
                         .collect(),
                     code_section: e.sections.iter().map(|c| Bytes::from(c.clone())).collect(),
-                    container_section: vec![],
+                    container_section: e.containers.iter().map(|c| Bytes::from(c.clone())).collect(),
                     data_section: Bytes::from(e.data.clone()),
                     is_data_filled: true,
                 };
@@ -761,8 +772,8 @@ fn state_str(interp: &Interpreter) -> String {
     })
 }
 
-/// EOF mode: would the next instruction read an immediate outside the section, or is it one the model does not
-/// cover in EOF mode (EOFCREATE, RETURNCONTRACT, EXT*CALL; CODESIZE/CODECOPY are `assume!` violations there)?
+/// EOF mode: would the next instruction read an immediate outside the section (or violate the `assume!` of
+/// CODESIZE / CODECOPY)?
 /// The interpreter itself checks none of this (validation does); executing it would be undefined behaviour.
 fn eof_danger(interp: &Interpreter) -> bool {
     if !interp.is_eof {
@@ -776,7 +787,7 @@ fn eof_danger(interp: &Interpreter) -> bool {
     let op = code[pc];
     let imm = match op {
         0xe0 | 0xe1 | 0xe3 | 0xe5 | 0xd1 => 2,
-        0xe6 | 0xe7 | 0xe8 => 1,
+        0xe6 | 0xe7 | 0xe8 | 0xec | 0xee => 1,
         0xe2 => {
             if pc + 1 >= code.len() {
                 return true;
@@ -784,7 +795,8 @@ fn eof_danger(interp: &Interpreter) -> bool {
             1 + (code[pc + 1] as usize + 1) * 2
         }
         0x60..=0x7f => (op - 0x5f) as usize,
-        0xec | 0xee | 0xf8 | 0xf9 | 0xfb | 0x38 | 0x39 => return true,
+        // CODESIZE / CODECOPY violate an `assume!` in EOF mode (undefined behaviour in a release build)
+        0x38 | 0x39 => return true,
         _ => 0,
     };
     if pc + 1 + imm > code.len() {
@@ -850,6 +862,18 @@ fn action_str(a: &InterpreterAction) -> Option<String> {
                 len_dig(&inputs.init_code)
             ))
         }
+        InterpreterAction::EOFCreate { inputs } => match &inputs.kind {
+            EOFCreateKind::Opcode { initcode, input, created_address } => Some(format!(
+                "eofcreate:{}:{}:{}:{}:{}:{}",
+                hxa(inputs.caller),
+                hxa(*created_address),
+                hx(inputs.value),
+                inputs.gas_limit,
+                len_dig(&initcode.raw),
+                len_dig(input)
+            )),
+            _ => None,
+        },
         _ => None,
     }
 }
@@ -858,6 +882,9 @@ impl Session {
     pub fn new(p: &Params) -> Session {
         let mut interp = p.interpreter();
         interp.shared_memory = SharedMemory::new();
+        if p.eof.as_ref().map(|e| e.init).unwrap_or(false) {
+            interp.set_is_eof_init();
+        }
         Session {
             interp,
             host: ScriptHost { env: p.env.env(), resp: Default::default(), called: None },
@@ -897,7 +924,10 @@ impl Session {
                 s.push_str(&format!(" act={a}"));
             }
         }
-        if matches!(self.interp.instruction_result, InstructionResult::Return | InstructionResult::Revert) {
+        if matches!(
+            self.interp.instruction_result,
+            InstructionResult::Return | InstructionResult::Revert | InstructionResult::ReturnContract
+        ) {
             if let InterpreterAction::Return { result } = &self.interp.next_action {
                 s.push_str(&format!(" out={}", len_dig(&result.output)));
             }
@@ -957,6 +987,11 @@ impl Session {
             InterpreterAction::Create { .. } => {
                 let outcome = CreateOutcome::new(c.interp_result(), c.address.map(addr_of));
                 self.interp.insert_create_outcome(outcome);
+                true
+            }
+            InterpreterAction::EOFCreate { .. } => {
+                let outcome = CreateOutcome::new(c.interp_result(), c.address.map(addr_of));
+                self.interp.insert_eofcreate_outcome(outcome);
                 true
             }
             _ => false,
@@ -1485,7 +1520,7 @@ fn gen_params(r: &mut Rng, code: Vec<u8>) -> Params {
 /// the answer the scripted host will give during the next instruction
 fn gen_resp(r: &mut Rng, op: Option<u8>) -> Resp {
     let Some(op) = op else { return Resp::default() };
-    let is_host = matches!(op, 0x31 | 0x3b | 0x3c | 0x3f | 0x40 | 0x47 | 0x54 | 0x55 | 0x5c | 0x5d | 0xa0..=0xa4 | 0xff | 0xf1 | 0xf2 | 0xf4 | 0xfa);
+    let is_host = matches!(op, 0x31 | 0x3b | 0x3c | 0x3f | 0x40 | 0x47 | 0x54 | 0x55 | 0x5c | 0x5d | 0xa0..=0xa4 | 0xff | 0xf1 | 0xf2 | 0xf4 | 0xfa | 0xf8 | 0xf9 | 0xfb);
     if !is_host && !r.chance(1, 50) {
         return Resp::default();
     }
@@ -1573,6 +1608,16 @@ fn keccak_resp(s: &Session) -> Resp {
     Resp { ok: true, word: U256::from_be_bytes(keccak256(&data).0), ..Default::default() }
 }
 
+/// the address EOFCREATE will compute (`target.create2(salt, keccak256(container))`), so that the request line carries it
+fn eofcreate_resp(s: &Session) -> Resp {
+    let pc = s.interp.program_counter();
+    let (Some(salt), Some(eof)) = (peek(&s.interp, 1), s.interp.eof()) else { return Resp::default() };
+    let Some(idx) = s.interp.bytecode.get(pc + 1) else { return Resp::default() };
+    let Some(sub) = eof.body.container_section.get(*idx as usize) else { return Resp::default() };
+    let a = s.interp.contract.target_address.create2(salt.to_be_bytes::<32>(), keccak256(sub));
+    Resp { ok: true, word: U256::from_be_slice(a.as_slice()), ..Default::default() }
+}
+
 /// one lockstep case: `begin`, then instructions until the frame ends / `max_steps`
 fn gen_case(r: &mut Rng, p: &Params, max_steps: usize, out: &mut Out, lines: &mut Vec<String>) {
     let case_id = lines.len();
@@ -1593,9 +1638,20 @@ fn gen_case(r: &mut Rng, p: &Params, max_steps: usize, out: &mut Out, lines: &mu
             let gl = match &sess.interp.next_action {
                 InterpreterAction::Call { inputs } => inputs.gas_limit,
                 InterpreterAction::Create { inputs } => inputs.gas_limit,
+                InterpreterAction::EOFCreate { inputs } => inputs.gas_limit,
                 _ => 0,
             };
-            let c = gen_child(r, gl);
+            let mut c = gen_child(r, gl);
+            if matches!(sess.interp.next_action, InterpreterAction::EOFCreate { .. }) {
+                if r.chance(1, 2) {
+                    c.result = InstructionResult::ReturnContract;
+                }
+                // `ReturnContract` without an address is the `expect("EOF Address")` of insert_eofcreate_outcome;
+                // the frame machine always supplies it
+                if c.result == InstructionResult::ReturnContract && c.address.is_none() {
+                    c.address = Some(gen_addr(r));
+                }
+            }
             let l = format!("i ret {}.r{} {}", case_id, lines.len(), c.token());
             let rep = ex.line(&l);
             lines.push(l);
@@ -1617,7 +1673,13 @@ fn gen_case(r: &mut Rng, p: &Params, max_steps: usize, out: &mut Out, lines: &mu
             break;
         }
         let op = sess.peek_opcode();
-        let resp = if op == Some(0x20) { keccak_resp(sess) } else { gen_resp(r, op) };
+        let resp = if op == Some(0x20) {
+            keccak_resp(sess)
+        } else if op == Some(0xec) && sess.interp.is_eof {
+            eofcreate_resp(sess)
+        } else {
+            gen_resp(r, op)
+        };
         let l = format!("i s {}.{} {}", case_id, steps, resp.token());
         let rep = ex.line(&l);
         lines.push(l);
@@ -1737,7 +1799,7 @@ fn eof_operands(op: u8, r: &mut Rng) -> Vec<U256> {
     }
 }
 
-fn gen_eof_section(r: &mut Rng, idx: usize, nsec: usize) -> Vec<u8> {
+fn gen_eof_section(r: &mut Rng, idx: usize, nsec: usize, ncont: usize, init: bool) -> Vec<u8> {
     let k = r.range(2, 14) as usize;
     let mut items: Vec<EItem> = vec![];
     for _ in 0..k {
@@ -1776,6 +1838,30 @@ fn gen_eof_section(r: &mut Rng, idx: usize, nsec: usize) -> Vec<u8> {
                 items.push(EItem::Raw(vec![op, imm]));
             }
             6 if idx > 0 => items.push(EItem::Raw(vec![0xe4])),
+            7 => {
+                // EXTCALL / EXTDELEGATECALL / EXTSTATICCALL
+                let op = *r.pick(&[0xf8u8, 0xf9, 0xfb]);
+                let mut c = vec![];
+                if op == 0xf8 {
+                    push_word(&mut c, if r.chance(1, 2) { U256::ZERO } else { r.word() }, r);
+                }
+                push_word(&mut c, gen_mem_word(r), r);
+                push_word(&mut c, gen_mem_word(r), r);
+                push_word(&mut c, if r.chance(1, 8) { r.word() } else { gen_addr(r) }, r);
+                c.push(op);
+                items.push(EItem::Raw(c));
+            }
+            8 if ncont > 0 || r.chance(1, 10) => {
+                // EOFCREATE: value, salt, data_offset, data_size on the stack (value on top)
+                let mut c = vec![];
+                push_word(&mut c, gen_mem_word(r), r);
+                push_word(&mut c, gen_mem_word(r), r);
+                push_word(&mut c, r.word(), r);
+                push_word(&mut c, if r.chance(1, 2) { U256::ZERO } else { r.word() }, r);
+                let i = if r.chance(1, 15) { r.next() as u8 } else { r.below(ncont.max(1) as u64) as u8 };
+                c.extend_from_slice(&[0xec, i]);
+                items.push(EItem::Raw(c));
+            }
             _ => {
                 let op = *r.pick(EOF_PLAIN_OPS);
                 let mut c = vec![];
@@ -1791,6 +1877,15 @@ fn gen_eof_section(r: &mut Rng, idx: usize, nsec: usize) -> Vec<u8> {
     }
     // terminator
     items.push(EItem::Raw(match r.below(6) {
+        _ if init && ncont > 0 && r.chance(1, 2) => {
+            // RETURNCONTRACT: aux_data_offset (top), aux_data_size
+            let mut c = vec![];
+            push_word(&mut c, match r.below(4) { 0 => U256::ZERO, 1 => U256::from(0xffff), _ => gen_mem_word(r) }, r);
+            push_word(&mut c, gen_mem_word(r), r);
+            let i = if r.chance(1, 15) { r.next() as u8 } else { r.below(ncont as u64) as u8 };
+            c.extend_from_slice(&[0xee, i]);
+            c
+        }
         0 if idx > 0 => vec![0xe4],
         1 => {
             let t = r.below(nsec as u64);
@@ -1835,10 +1930,109 @@ fn gen_eof_section(r: &mut Rng, idx: usize, nsec: usize) -> Vec<u8> {
     code
 }
 
+/// a sub-container: usually a decodable one with its data section filled
+fn gen_subcontainer(r: &mut Rng) -> Vec<u8> {
+    if r.chance(1, 25) {
+        return rbytes(r, 1, 40);
+    }
+    let nsec = r.range(1, 2) as usize;
+    let body = EofBody {
+        types_section: (0..nsec).map(|_| TypesSection { inputs: 0, outputs: 0x80, max_stack_size: 0 }).collect(),
+        code_section: (0..nsec).map(|_| Bytes::from(vec![if r.chance(1, 2) { 0x00 } else { 0xfe }])).collect(),
+        container_section: vec![],
+        data_section: Bytes::from(rbytes(r, 0, 40)),
+        is_data_filled: true,
+    };
+    let mut e = body.into_eof();
+    if r.chance(1, 12) {
+        // declared data longer than what is there: `is_data_filled = false` after decoding
+        e.header.data_size += r.range(1, 9) as u16;
+        return e.encode_slow().to_vec();
+    }
+    e.raw.to_vec()
+}
+
+/// EOF containers aimed at one of EOFCREATE / RETURNCONTRACT / EXTCALL / EXTDELEGATECALL / EXTSTATICCALL: operands in
+/// place, ample gas, decodable sub-containers, and a few instructions that look at the result afterwards
+fn gen_eof_directed(r: &mut Rng) -> Params {
+    let ncont = r.range(1, 3) as usize;
+    let containers: Vec<Vec<u8>> = (0..ncont).map(|_| gen_subcontainer(r)).collect();
+    let which = r.below(5);
+    let init = which == 1;
+    let small = |r: &mut Rng| U256::from(*r.pick(&[0u64, 1, 31, 32, 33, 64, 100]));
+    let mut c = vec![];
+    // something in memory first
+    if r.chance(1, 2) {
+        push_word(&mut c, r.word(), r);
+        push_word(&mut c, small(r), r);
+        c.push(0x52);
+    }
+    let after: &[u8] = &[0x3d, 0x5f, 0xf7, 0x59, 0x00]; // RETURNDATASIZE PUSH0 RETURNDATALOAD MSIZE STOP
+    match which {
+        0 => {
+            let sz = if r.chance(1, 6) { gen_mem_word(r) } else { small(r) };
+            let off = if r.chance(1, 6) { gen_mem_word(r) } else { small(r) };
+            push_word(&mut c, sz, r);
+            push_word(&mut c, off, r);
+            push_word(&mut c, r.word(), r);
+            push_word(&mut c, if r.chance(1, 2) { U256::ZERO } else { r.word() }, r);
+            c.extend_from_slice(&[0xec, if r.chance(1, 12) { ncont as u8 } else { r.below(ncont as u64) as u8 }]);
+            c.extend_from_slice(after);
+        }
+        1 => {
+            let sz = match r.below(6) {
+                0 => U256::ZERO,
+                1 => U256::from(0xffffu64),
+                2 => U256::from(0x10000u64),
+                3 => gen_mem_word(r),
+                _ => small(r),
+            };
+            push_word(&mut c, sz, r);
+            push_word(&mut c, if r.chance(1, 6) { gen_mem_word(r) } else { small(r) }, r);
+            c.extend_from_slice(&[0xee, if r.chance(1, 12) { ncont as u8 } else { r.below(ncont as u64) as u8 }]);
+        }
+        _ => {
+            let op = [0xf8u8, 0xf9, 0xfb][(which - 2) as usize];
+            if op == 0xf8 {
+                push_word(&mut c, if r.chance(1, 2) { U256::ZERO } else { U256::from(r.below(1000)) }, r);
+            }
+            push_word(&mut c, if r.chance(1, 6) { gen_mem_word(r) } else { small(r) }, r);
+            push_word(&mut c, if r.chance(1, 6) { gen_mem_word(r) } else { small(r) }, r);
+            push_word(&mut c, if r.chance(1, 10) { r.word() } else { gen_addr(r) }, r);
+            c.push(op);
+            c.extend_from_slice(after);
+        }
+    }
+    let mut p = gen_params(r, vec![]);
+    p.spec = *r.pick(&[19u8, 255]);
+    p.gas = match r.below(6) {
+        0 => r.below(40_000),
+        1 => r.range(2300, 9000),
+        _ => r.range(100_000, 3_000_000),
+    };
+    if which != 0 && which != 1 {
+        p.is_static = r.chance(1, 3);
+    } else {
+        p.is_static = r.chance(1, 10);
+    }
+    let data = rbytes(r, 0, 40);
+    p.eof = Some(EofParams {
+        sections: vec![c],
+        types: vec![(0, 0x80, 8)],
+        data_size: data.len() as u16,
+        data,
+        containers,
+        init,
+    });
+    p
+}
+
 fn gen_eof_params(r: &mut Rng) -> Params {
     let nsec = r.range(1, 4) as usize;
+    let ncont = if r.chance(1, 2) { r.range(1, 3) as usize } else { 0 };
+    let init = ncont > 0 && r.chance(1, 3);
     let sections: Vec<Vec<u8>> = (0..nsec)
-        .map(|i| if r.chance(1, 30) { gen_random_code(r) } else { gen_eof_section(r, i, nsec) })
+        .map(|i| if r.chance(1, 30) { gen_random_code(r) } else { gen_eof_section(r, i, nsec, ncont, init) })
         .map(|c| if c.is_empty() { vec![0x00] } else { c })
         .collect();
     let types: Vec<(u8, u8, u16)> = (0..if r.chance(1, 20) { nsec - 1 } else { nsec })
@@ -1866,7 +2060,8 @@ fn gen_eof_params(r: &mut Rng) -> Params {
     if p.gas > 3_000_000 && r.chance(3, 4) {
         p.gas = r.range(1000, 300_000);
     }
-    p.eof = Some(EofParams { sections, types, data, data_size });
+    let containers: Vec<Vec<u8>> = (0..ncont).map(|_| gen_subcontainer(r)).collect();
+    p.eof = Some(EofParams { sections, types, data, data_size, containers, init });
     p
 }
 
@@ -1879,8 +2074,8 @@ fn gen(seed: u64, n: usize, out: &mut Out) -> Vec<String> {
     gen_truncated_push(&mut r, out, &mut lines, !thorough);
     // DIFFICULTY under MERGE with `prevrandao = None`: the `unwrap()` of host_env.rs (excluded by `Env` validation)
     for _ in 0..n {
-        if r.chance(1, 8) {
-            let p = gen_eof_params(&mut r);
+        if r.chance(1, 5) {
+            let p = if r.chance(1, 2) { gen_eof_directed(&mut r) } else { gen_eof_params(&mut r) };
             out.count("case:eof");
             gen_case(&mut r, &p, 200, out, &mut lines);
             continue;
